@@ -258,8 +258,53 @@ func (h H) nonLeaderRejects(rule string) {
 		}
 	})
 	h.C.Floor(rule+" (dirty-read forwards)", n, 1)
+	// the non-leader branch answers every entry of the batch: its receiver walks the .next chain
+	reply := h.fn("raft:(*task).reply")
+	for k, c := range h.P.CallsTo(fn, reply) {
+		recv := fi.Sym(c.Common().Args[0]).String()
+		if !strings.HasPrefix(recv, "phi(select@") && !strings.HasPrefix(recv, "select@") {
+			continue
+		}
+		h.C.Check(rule+" rejects-whole-batch", h.site(fn, reply, k), strings.Contains(recv, ".next)"), h.pos(c), "a non-leader answers only the head of a batch of client entries; receiver: "+recv)
+	}
 	// appendEntry is never called directly from stateLoop
 	ae := h.fn("raft:(*storage).appendEntry")
 	h.C.Check(rule+" no-direct-append", "(*Raft).stateLoop appendEntry", len(h.P.CallsTo(fn, ae)) == 0, h.fpos(fn), "stateLoop appends entries itself")
 	h.onlyCallers(rule+" who-may-call", "raft:(*storage).appendEntry", "(*leader).storeEntry", "(*Raft).onAppendEntriesRequest", "(*storage).bootstrap")
+}
+
+// releaseEmptiesHolders: leader.release answers the holders and empties them,
+// so that nothing queued under an earlier leadership survives into the next one.
+func (h H) releaseEmptiesHolders(rule string) {
+	rel := h.fn("raft:(*leader).release")
+	fi := h.P.Info(rel)
+	reply := h.fn("raft:(*task).reply")
+	// last reply to a queued entry
+	var lastReply ssa.Instruction
+	for _, c := range h.P.CallsTo(rel, reply) {
+		if strings.Contains(fi.Sym(c.Common().Args[0]).String(), "neHead") {
+			lastReply = c
+		}
+	}
+	for _, f := range []string{"raft:leader.neHead", "raft:leader.neTail", "raft:leader.waitStable"} {
+		short := f[len("raft:"):]
+		ok := false
+		for _, s := range h.storesIn(rel, f) {
+			if fi.Sym(storeVal(s.Instr)).String() != "nil" {
+				continue
+			}
+			// on every path to the return
+			ok = true
+			for _, r := range core.Returns(rel) {
+				if !fi.PrecededBy(r, func(in ssa.Instruction) bool { return in == s.Instr }).OK {
+					ok = false
+				}
+			}
+		}
+		h.C.Check(rule, "(*leader).release clears "+short, ok, h.fpos(rel), "leader.release returns without resetting "+short+": entries answered now are handed to the state machine again when this node is re-elected")
+	}
+	h.C.Check(rule, "(*leader).release replies-before-clear", lastReply != nil, h.fpos(rel), "no reply to the queued entries found")
+	// leader.init starts from an empty queue as well: neHead/neTail are written only by storeEntry/applyCommitted/release
+	h.onlyWriters(rule+" who-may-write", "raft:leader.neHead", "(*leader).storeEntry", "(*leader).applyCommitted", "(*leader).release")
+	h.onlyWriters(rule+" who-may-write", "raft:leader.neTail", "(*leader).storeEntry", "(*leader).applyCommitted", "(*leader).release")
 }
